@@ -57,6 +57,7 @@ POOL = [
     R("mRNA", 2000, 2900, [["ID", ["m3"]], ["Parent", ["g2"]], ["Note", ["a", "b"]]]),  # 12
     R("exon", 2100, 2200, [["Parent", ["m3"]], ["Note", ["auto2"]]]),  # 13 no ID
     R("exon", 300, 350, [["ID", ["e9"]], ["Parent", ["ghost1", "m1"]]]),  # 14 a Parent naming no stored feature
+    R("part", 310, 320, [["ID", ["p\u2028x\x85"]], ["Parent", ["e9"]]]),  # 15 an id with U+2028 / U+0085 (legal, unescaped) at the bottom of a chain
 ]
 SEED = [0, 1, 2]
 
@@ -271,6 +272,8 @@ class History(object):
                 targets.append(ids[t % len(ids)])
         if op["as"] == "feature" and all(t in self.m.store for t in targets):
             arg = [self.db[t] for t in targets]
+        elif op["as"] == "generator" and all(t in self.m.store for t in targets):
+            arg = (f for f in [self.db[t] for t in targets])  # one-shot iterable of Features
         elif len(targets) == 1 and op["as"] == "id":
             arg = targets[0]
         else:
@@ -338,6 +341,15 @@ class History(object):
             data = gen()
         elif form == "list":
             data = [feature_from_line(l) for l in lines]
+        elif form == "constructed":
+            # Feature objects built through the constructor (they carry the default dialect, not the file's)
+            from gffutils.feature import Feature
+
+            data = []
+            for r in recs:
+                c = r["cols"]
+                data.append(Feature(seqid=c[0], source=c[1], featuretype=c[2], start=c[3], end=c[4], score=c[5], strand=c[6], frame=c[7],
+                                    attributes=dict((k, list(v)) for k, v in tm.attrs_dict(r).items())))
         else:
             data = self.ctx.write("upd.gff", "\n".join(lines) + "\n")
         # model first (on a copy of the relation set)
@@ -501,12 +513,12 @@ class MachineLeg(_Base):
 
             @rule(recs=st.lists(st.integers(0, len(POOL) - 1), min_size=1, max_size=4),
                   strategy=st.sampled_from(STRATEGIES + ["merge", "create_unique", "warning", "replace", "merge", "create_unique"]),
-                  form=st.sampled_from(["list", "generator", "path"]), backup=st.booleans(),
+                  form=st.sampled_from(["list", "generator", "path", "constructed"]), backup=st.booleans(),
                   checklines=st.sampled_from([None, None, 0, 1, 10]))
             def update(self, recs, strategy, form, backup, checklines):
                 self._do({"op": "update", "recs": recs, "strategy": strategy, "form": form, "backup": backup, "checklines": checklines})
 
-            @rule(which=st.lists(st.integers(0, 20), min_size=1, max_size=2), how=st.sampled_from(["id", "id", "feature", "missing", "relation-only"]),
+            @rule(which=st.lists(st.integers(0, 20), min_size=1, max_size=2), how=st.sampled_from(["id", "id", "feature", "generator", "missing", "relation-only"]),
                   backup=st.booleans())
             def delete(self, which, how, backup):
                 self._do({"op": "delete", "targets": which, "as": how, "backup": backup})
@@ -567,7 +579,7 @@ ALPHABET = [
     {"op": "update", "recs": [4, 5], "strategy": "create_unique", "form": "generator", "backup": True},
     {"op": "update", "recs": [10, 14, 7], "strategy": "warning", "form": "path", "backup": False},
     {"op": "update", "recs": [5, 13], "strategy": "error", "form": "list", "backup": False},
-    {"op": "delete", "targets": [2], "as": "id", "backup": True},
+    {"op": "delete", "targets": [2], "as": "generator", "backup": True},
     {"op": "delete", "targets": [17], "as": "relation-only", "backup": False},
     {"op": "reopen"},
     {"op": "add_relation", "parent": 0, "child": 2, "level": 2, "by_id": True},
